@@ -31,6 +31,7 @@ type Instance struct {
 	Fn      string
 	Params  map[string]int
 	MaxAlloc int64
+	SymOnly  bool // depends on stand-ins that exist only under symbolic execution: no native replay / validation
 }
 
 func (i Instance) String() string {
@@ -338,7 +339,10 @@ func runProperty(p *Property, tier string, seed, workers int, only string, norep
 			continue
 		}
 		confirmed := "skipped"
-		if !noreplay {
+		if vr.inst.SymOnly {
+			confirmed = "not applicable (harness uses library stand-ins that exist only in the model)"
+		}
+		if !noreplay && !vr.inst.SymOnly {
 			ok, out := nativeReplay(path, vr.inst.Pkg)
 			if ok {
 				confirmed = "reproduced"
@@ -589,6 +593,9 @@ func translatorValidation(eng *sym.Engine, p *Property, insts []Instance, tier s
 	symRes := map[key]string{}
 	n := 0
 	for _, in := range insts {
+		if in.SymOnly {
+			continue
+		}
 		for k := 0; k < perInst && n < maxCases; k++ {
 			inputs := make([]uint64, 96)
 			for i := range inputs {
